@@ -3,5 +3,5 @@ CONSTANTS
   N = 4
   Defects = {}
 SPECIFICATION Spec
-INVARIANTS OnlyTruth Prompt NeverFail
+INVARIANTS OnlyTruth Prompt NeverFail OrderIndependent EmitCase
 CHECK_DEADLOCK FALSE
